@@ -428,6 +428,9 @@ impl Compressor for HuffmanCompressor {
 /// rANS-based compressor
 pub struct RansCompressor {
     encoder: Rans64Encoder<ParallelX1>,
+    /// Raw (un-normalised) training frequencies: stored in every frame so that the
+    /// decoder rebuilds exactly the table the encoder used
+    frequencies: [u32; 256],
 }
 
 impl RansCompressor {
@@ -461,7 +464,7 @@ impl RansCompressor {
         }
 
         let encoder = Rans64Encoder::<ParallelX1>::new(&frequencies)?;
-        Ok(Self { encoder })
+        Ok(Self { encoder, frequencies })
     }
 }
 
@@ -473,9 +476,10 @@ impl Compressor for RansCompressor {
 
         let mut result = Vec::new();
 
-        // Store frequencies table (4 bytes per frequency)
-        for i in 0..=255u8 {
-            let freq = self.encoder.get_symbol(i).freq;
+        // Store the raw frequencies table (4 bytes per frequency).  The normalised table must not be
+        // stored: Rans64Encoder::new normalises its input, and normalising a normalised table again
+        // yields a different table than the one this encoder uses.
+        for freq in self.frequencies.iter() {
             result.extend_from_slice(&freq.to_le_bytes());
         }
 
